@@ -657,6 +657,7 @@ def evaluate(c, ctx):
 def check_case(case, ctx):
     # the signature is attached here so that an exception raised by pMuTT is recorded identically
     # during exploration and during replay
+    case = dict(_base(kind_of(case['inst'])), **case)      # axes absent from an older record = default
     ctx.run_case(evaluate, case, signature(case))
 
 
